@@ -26,6 +26,7 @@ inductive Err where
   | absenceProof           -- "only presence proofs allowed"
   | emptyRange             -- "proof without data"
   | sharesNeededMismatch   -- "shares needed (..) != proof's data length (..)"
+  | sharesNeededOverflow   -- "shares needed overflow" (checked u64 sum, /repo 292f2b8)
   | row (e : RowProof.Err) -- `self.row_proof.verify(root)?`
   | rangeProof (e : Nmt.Err) -- `Error::RangeProofError`
   deriving DecidableEq, Repr
@@ -35,6 +36,7 @@ def Err.kind : Err → String
   | .absenceProof => "AbsenceProof"
   | .emptyRange => "EmptyRange"
   | .sharesNeededMismatch => "SharesNeededMismatch"
+  | .sharesNeededOverflow => "SharesNeededOverflow"
   | .row e => e.kind
   | .rangeProof e => "RangeProof:" ++ e.kind
 
@@ -45,15 +47,26 @@ inductive Outcome where
   deriving DecidableEq, Repr
 
 def u32Max : Nat := 4294967295
+def u64Max : Nat := 18446744073709551615
 
-/-- the first loop: `shares_needed += proof.end_idx() - proof.start_idx()` in `u32`
-    (debug build: overflow panics) -/
-def sharesNeeded : Nat → List NsProof → Except Outcome Nat
+/-- the first loop as in the ORIGINAL code: `shares_needed += proof.end_idx() - proof.start_idx()` in `u32`
+    (debug build: overflow panics; release: wraps).  Kept for the counterexample theorem. -/
+def sharesNeededOrig : Nat → List NsProof → Except Outcome Nat
   | acc, [] => .ok acc
   | acc, p :: ps =>
     if p.isAbsence then .error (.err .absenceProof)
     else if p.end_ ≤ p.start then .error (.err .emptyRange)
     else if u32Max < acc + (p.end_ - p.start) then .error .panic
+    else sharesNeededOrig (acc + (p.end_ - p.start)) ps
+
+/-- the first loop (current code): the range lengths are summed in `u64` with `checked_add`; an overflow is a
+    verification error -/
+def sharesNeeded : Nat → List NsProof → Except Outcome Nat
+  | acc, [] => .ok acc
+  | acc, p :: ps =>
+    if p.isAbsence then .error (.err .absenceProof)
+    else if p.end_ ≤ p.start then .error (.err .emptyRange)
+    else if u64Max < acc + (p.end_ - p.start) then .error (.err .sharesNeededOverflow)
     else sharesNeeded (acc + (p.end_ - p.start)) ps
 
 /-- the second loop: per row, take `amount` shares off the front of `data` and verify their range proof
@@ -75,12 +88,13 @@ def rangeLoop (h : Nmt.HashFn) (ns : Bytes) : List Bytes → List NsProof → Li
         | .ok () => rangeLoop h ns (data.drop amount) ps rs
   | _, _, _ => .ok
 
-/-- `ShareProof::verify(root)`, parametric in the row-proof verifier (original / fixed) -/
-def verifyWith {D : Type} (rowVerify : RowProof D → Option D → RowProof.Outcome) (h : Nmt.HashFn)
+/-- `ShareProof::verify(root)`, parametric in the first loop and the row-proof verifier (original / fixed) -/
+def verifyWith {D : Type} (needed : Nat → List NsProof → Except Outcome Nat)
+    (rowVerify : RowProof D → Option D → RowProof.Outcome) (h : Nmt.HashFn)
     (sp : ShareProof D) (rt : Option D) : Outcome :=
   if sp.shareProofs.length ≠ sp.rowProof.rowRoots.length then .err .lenMismatch
   else
-    match sharesNeeded 0 sp.shareProofs with
+    match needed 0 sp.shareProofs with
     | .error o => o
     | .ok needed =>
       if needed ≠ sp.data.length then .err .sharesNeededMismatch
@@ -92,11 +106,12 @@ def verifyWith {D : Type} (rowVerify : RowProof D → Option D → RowProof.Outc
 
 def verify {D : Type} [DecidableEq D] (H : HashFns D) (h : Nmt.HashFn) (sp : ShareProof D) (rt : Option D) :
     Outcome :=
-  verifyWith (RowProof.verify H) h sp rt
+  verifyWith sharesNeeded (RowProof.verify H) h sp rt
 
+/-- the code before the three C13 `fix:` commits (u32 sum, u16 row span, no `index < total`) -/
 def verifyOrig {D : Type} [DecidableEq D] (H : HashFns D) (h : Nmt.HashFn) (sp : ShareProof D) (rt : Option D) :
     Outcome :=
-  verifyWith (RowProof.verifyOrig H) h sp rt
+  verifyWith sharesNeededOrig (RowProof.verifyOrig H) h sp rt
 
 /-! ### honest construction (what a full node / the test harness does; lumina has no builder) -/
 
